@@ -208,7 +208,8 @@ def concurrent(ctx):
     for scn in conc_scenarios(ctx.tier):
         tasks.append((scn, (), 1, {"cap": 150, "prov": True}))
         if thorough:
-            tasks.append((scn, (), 2, {"cap": 150, "prov": True, "gran": "runner"}))
+            # bound 2 with line points in the runner for the in-memory store, one point per call into runner / storage otherwise
+            tasks.append((scn, (), 2, {"cap": 150, "prov": True, "gran": "runner" if scn[1] == "mem" else "calls"}))
     t1 = c09.run_once(tasks[0][0], (), prov=True)
     t2 = c09.run_once(tasks[0][0], (), prov=True)
     ctx.selfcheck("concurrent part: default schedule replays identically", t1[0] == t2[0] and t1[1] == t2[1])
@@ -220,7 +221,7 @@ def concurrent(ctx):
     ctx.merge(res)
     ctx.states += n
     ctx.extra["concurrent"] = {"scenarios": [t[0][0] for t in tasks if "gran" not in t[3]], "schedules_executed": n,
-                               "preemption_bound": "1 at line granularity" + (", 2 at runner granularity" if thorough else "")}
+                               "preemption_bound": "1 at line granularity" + (", 2 at runner (memory store) / call granularity" if thorough else "")}
     ctx.rule += (" Concurrent part: two threads whose call trees share a sub-tree (top1->mid->leaf with top2->mid->leaf, with mid, "
                  "with leaf), cold store, every schedule up to the preemption bound under the controlled scheduler; after each "
                  "execution the record of every call in both trees is compared with the static call tree.")
